@@ -83,7 +83,7 @@ def run(case):
     z, dims, k, s, n_parts = case['z_ion'], case['dimensions'], case['k'], case['s'], case['n_parts']
 
     def make(Mx, dtx, p=path):
-        return cases.trajectory(p - np.floor(p), sym, Mx, dtx, temp, case['species_kind'])
+        return cases.derived_trajectory(p - np.floor(p), sym, Mx, dtx, temp, case['species_kind'], derive=case.get('derive'))
 
     t = make(M, dt)
     got = lib_metrics(t, z, dims)
@@ -223,6 +223,7 @@ def metric_cases(draw, tier):
     c['extend_at'] = draw(st.integers(0, T))
     c['swap_axes'] = draw(st.sampled_from([False, False, True]))
     c['n_parts'] = draw(st.integers(2, max(2, min(5, (T - 1) // 3))))
+    c['derive'] = draw(cases.derive_strategy())  # the trajectory as a frame range / species selection / joined pieces of other trajectories
     return c
 
 
